@@ -13,7 +13,7 @@ import ast
 
 from ..model import AnalysisError, unparse, walk_local
 from ..engines import coordkind
-from ._common import dim_generic, names_and_calls_resolve
+from ._common import dim_generic, names_and_calls_resolve, groupop_composition_order
 
 SCOPE = [('crystal', 'maptranslation'), ('crystal', 'GroupOp.'), ('crystal', 'Crystal.__init__'),
          ('crystal', 'Crystal.gengroup'), ('crystal', 'Crystal.genpoint'), ('crystal', 'Crystal.genWyckoffsets'),
@@ -79,6 +79,7 @@ def run(model, rep, tier):
             rep.ob('operator-composition', mod, node, 'GroupOp.%s: %s' % (m, unparse(node)[:80]), False, msg, engine='coordkind',
                    qual='GroupOp.' + m)
     rep.floor('GroupOp algebra fields typed', n, 7)
+    groupop_composition_order(model, rep)
     # NOSYM branch goes through GroupOp.ident with the crystal's own basis
     init = model.func('crystal', 'Crystal.__init__')
     ns = [x for x in walk_local(init) if isinstance(x, ast.If) and unparse(x.test) == 'NOSYM']
@@ -87,8 +88,8 @@ def run(model, rep, tier):
            '' if ok else 'NOSYM branch does not build the identity from the crystal\'s own basis', engine='flow',
            qual='Crystal.__init__')
     ident = ci.methods.get('ident')
-    src = unparse(ident)
-    ok = 'indexmap' in src and 'range(len(atomlist))' in src
+    from ..engines import pattern
+    ok = pattern.has(ident, 'tuple((tuple((_N_i for _N_i in range(len(_N_a)))) for _N_a in _N_basis))', 'expr')
     rep.ob('operator-composition', mod, ident, 'GroupOp.ident: indexmap is the identity permutation of every species', ok,
            '' if ok else 'identity operation does not map every atom to itself', engine='flow', qual='GroupOp.ident')
 
